@@ -255,6 +255,20 @@ func main() {
 			}
 			return b.msg, s, b.pk, true
 		})
+	// signature length deviations: every length 0..max for the base triple (valid bytes, extended with zeros / with a copy of the auth path)
+	flipFamily("sig-length", "valid signature truncated or extended to EVERY length 0..2180+31*32+40 (zero padding and repeated-auth padding): accepted only at the canonical length", func(b *base) int { return 2 * (2180 + 31*32 + 41) },
+		func(b *base, k int) ([]byte, []byte, [67]byte, bool) {
+			n := 2180 + 31*32 + 41
+			l, mode := k%n, k/n
+			s := make([]byte, l)
+			copy(s, b.sig)
+			if mode == 1 {
+				for t := len(b.sig); t < l; t++ {
+					s[t] = b.sig[len(b.sig)-32*b.h+(t-len(b.sig))%(32*b.h)]
+				}
+			}
+			return b.msg, s, b.pk, l != len(b.sig)
+		})
 	// cross matrix
 	for _, tier := range []string{"q", "t"} {
 		t := map[string]string{"q": "quick", "t": "thorough"}[tier]
